@@ -278,6 +278,41 @@ def ctor_with_extras(tkey, seed):
     return n, vs
 
 
+def ctor_dependent(tkey, seed):
+    """Unit-dependent controllers as constructor keywords: alone (default unit) and together with the unit keyword, for
+    every unit -- in-range values of THAT unit must be stored exactly (several controllers may share one unit)."""
+    t = spec.types()[tkey]
+    cls = cls_of(tkey)
+    by_name = {x.name: x for x in t.controllers}
+    vs, n = [], 0
+    deps = [c for c in t.controllers if c.kind == "dependent"]
+    for c in deps:
+        u = by_name[c.depends_on]
+        default_unit = next(k for k, v in u.members.items() if k == u.default)
+        for unit, (lo, hi) in c.ranges.items():
+            for v in deviate.range_alphabet(lo, hi, seed):
+                for with_unit_kw in ((True, False) if unit == default_unit else (True,)):
+                    for others in ([], [d for d in deps if d is not c and d.depends_on == c.depends_on]):
+                        n += 1
+                        kw = {c.attr: v}
+                        if with_unit_kw:
+                            kw[u.attr] = u.members[unit]
+                        for d in others:
+                            kw[d.attr] = d.ranges[unit][1]
+                        case = {"type": tkey, "ctor_dependent": [c.name, unit]}
+                        try:
+                            m = cls(**kw)
+                        except Exception as ex:
+                            vs.append(C.viol("ctor-in-range-not-stored", {"type": tkey, "controller": c.name, "unit": unit, "label": "dependent"},
+                                             {"kw": {k: int(getattr(x, "value", x)) for k, x in kw.items()}, "outcome": type(ex).__name__}, case))
+                            continue
+                        got = getattr(m, c.attr)
+                        if as_int(got) != v:
+                            vs.append(C.viol("ctor-in-range-not-stored", {"type": tkey, "controller": c.name, "unit": unit, "label": "dependent"},
+                                             {"kw": {k: int(getattr(x, "value", x)) for k, x in kw.items()}, "read": repr(got)}, case))
+    return n, vs[:10]
+
+
 def ctor_pairs(tkey, seed, only=None):
     """Constructor keywords in COMBINATION: every unordered pair of controllers of the type x two in-domain values
     each; both must read back exactly (a constructor that post-processes one keyword when another is present --
@@ -417,6 +452,8 @@ def run_case(case):
     if case.get("default") or "ctor" in case:
         _n, vs = check_defaults_and_ctor(case["type"], 0)
         return [v for v in vs if v["key"].get("controller") == case["controller"]]
+    if case.get("ctor_dependent"):
+        return [v for v in ctor_dependent(case["type"], 0)[1] if v["case"]["ctor_dependent"] == case["ctor_dependent"]]
     if case.get("ctor_extra"):
         return [v for v in ctor_with_extras(case["type"], 0)[1] if v["case"]["ctor_extra"] == case["ctor_extra"]]
     if case.get("ctor_pair"):
@@ -431,7 +468,8 @@ def _task(t):
     if t[0] == "ctorpairs":
         n, vs = ctor_pairs(t[1], t[2])
         n2, vs2 = ctor_with_extras(t[1], t[2])
-        n, vs = n + n2, vs + vs2
+        n3, vs3 = ctor_dependent(t[1], t[2])
+        n, vs = n + n2 + n3, vs + vs2 + vs3
         C.count(r, "ctor_pairs", n)
         r["sample"] = {"type": t[1], "ctor_pairs": True}
     elif t[0] == "defaults":
